@@ -73,7 +73,7 @@ M61 = 2 ** 61 - 1          # hash(M61) == hash(0)
 POOLS = {
     "int": [-2, -1, 0, 1, 2, 3, 7, M61],
     "bool": [True, False],
-    "float": [0.5, -1.5, 2.0, 3.25, 0.0],
+    "float": [0.5, -1.5, 2.0, 3.25, 0.0, -0.0],
     "complex": [complex(1, 2), complex(0, -1)],
     "str": ["a", "b", "A", " a ", "", "zz"],
     "date": [D1, D2, D3],
